@@ -24,8 +24,15 @@ def mapViewboxToFontSpace (vb : Rect) (asc desc width : Q) (user : Aff) : Except
   | .error e => .error e
   | .ok s => .ok (Aff.composeLtr [s, ⟨1, 0, 0, -1, 0, asc⟩, user])
 
-/-- `map_viewbox_to_otsvg_space` -/
+/-- `map_viewbox_to_otsvg_space` (after the F5 fix: the user transform, given in y-up font coordinates,
+is conjugated with the y flip) -/
 def mapViewboxToOtsvgSpace (vb : Rect) (asc desc width : Q) (user : Aff) : Except VErr Aff :=
+  match scaleViewboxToFontMetrics vb asc desc width with
+  | .error e => .error e
+  | .ok s => .ok (Aff.composeLtr [s, ⟨1, 0, 0, 1, 0, -asc⟩, ⟨1, 0, 0, -1, 0, 0⟩, user, ⟨1, 0, 0, -1, 0, 0⟩])
+
+/-- the pre-fix form (user transform applied in y-down coordinates), kept for the counter-statement -/
+def mapViewboxToOtsvgSpaceOld (vb : Rect) (asc desc width : Q) (user : Aff) : Except VErr Aff :=
   match scaleViewboxToFontMetrics vb asc desc width with
   | .error e => .error e
   | .ok s => .ok (Aff.composeLtr [s, ⟨1, 0, 0, 1, 0, -asc⟩, user])
